@@ -118,6 +118,8 @@ pub enum Error {
     /// The uplink cannot be assembled: application data on FPort 0 (reserved for MAC commands),
     /// or a frame that would exceed the 255 bytes a LoRa packet can carry.
     InvalidPayload,
+    /// No uplink channel is both defined and enabled for the data rate in force.
+    NoChannel,
     #[cfg(feature = "multicast")]
     Multicast(multicast::Error),
 }
@@ -166,8 +168,11 @@ impl Mac {
         let mut otaa = otaa::Otaa::new(credentials);
         let dev_nonce = otaa.prepare_buffer::<RNG, N>(rng, buf);
         self.state = State::Otaa(otaa);
-        let (mut tx_config, tx_channel) =
-            self.region.create_tx_config(rng, self.configuration.data_rate, &Frame::Join);
+        // join channels are always defined and, for join requests, not subject to the channel mask
+        let (mut tx_config, tx_channel) = self
+            .region
+            .create_tx_config(rng, self.configuration.data_rate, &Frame::Join)
+            .expect("no join channel for the configured data rate");
         tx_config.adjust_power(self.board_eirp.max_power, self.board_eirp.antenna_gain);
         (tx_config, self.rx_windows(&tx_channel), dev_nonce)
     }
@@ -190,18 +195,18 @@ impl Mac {
         buf: &mut RadioBuffer<N>,
         send_data: &SendData<'_>,
     ) -> Result<(radio::TxConfig, RxWindows, FcntUp)> {
-        let fcnt = match &mut self.state {
-            State::Joined(session) => {
-                if !session.can_send(send_data) {
-                    return Err(Error::InvalidPayload);
-                }
-                Ok(session.prepare_buffer::<N>(send_data, buf, &self.configuration, &self.region))
-            }
-            State::Otaa(_) => Err(Error::NotJoined),
-            State::Unjoined => Err(Error::NotJoined),
-        }?;
-        let (mut tx_config, tx_channel) =
-            self.region.create_tx_config(rng, self.configuration.data_rate, &Frame::Data);
+        let State::Joined(session) = &mut self.state else {
+            return Err(Error::NotJoined);
+        };
+        if !session.can_send(send_data) {
+            return Err(Error::InvalidPayload);
+        }
+        // Select the channel before the session is touched: without one there is no uplink
+        let (mut tx_config, tx_channel) = self
+            .region
+            .create_tx_config(rng, self.configuration.data_rate, &Frame::Data)
+            .ok_or(Error::NoChannel)?;
+        let fcnt = session.prepare_buffer::<N>(send_data, buf, &self.configuration, &self.region);
         // The level commanded by the network never lifts the limit of the radio itself
         tx_config.adjust_power(
             self.configuration
@@ -230,11 +235,13 @@ impl Mac {
         rng: &mut RNG,
         buf: &mut RadioBuffer<N>,
     ) -> Result<(radio::TxConfig, FcntUp)> {
+        // No RX windows follow this uplink; the caller re-arms the RXC window.
+        let (mut tx_config, _) = self
+            .region
+            .create_tx_config(rng, self.configuration.data_rate, &Frame::Data)
+            .ok_or(Error::NoChannel)?;
         self.multicast.setup_send::<N>(&mut self.state, buf, &self.configuration, &self.region).map(
             |fcnt_up| {
-                // No RX windows follow this uplink; the caller re-arms the RXC window.
-                let (mut tx_config, _) =
-                    self.region.create_tx_config(rng, self.configuration.data_rate, &Frame::Data);
                 tx_config.adjust_power(
                     self.configuration.tx_power.unwrap_or(self.board_eirp.max_power),
                     self.board_eirp.antenna_gain,
@@ -250,12 +257,14 @@ impl Mac {
         rng: &mut RNG,
         buf: &mut RadioBuffer<N>,
     ) -> Result<(radio::TxConfig, FcntUp)> {
+        // No RX windows follow this uplink; the caller completes with rx2_complete().
+        let (mut tx_config, _) = self
+            .region
+            .create_tx_config(rng, self.configuration.data_rate, &Frame::Data)
+            .ok_or(Error::NoChannel)?;
         self.certification
             .setup_send::<N>(&mut self.state, buf, &self.configuration, &self.region)
             .map(|fcnt_up| {
-                // No RX windows follow this uplink; the caller completes with rx2_complete().
-                let (mut tx_config, _) =
-                    self.region.create_tx_config(rng, self.configuration.data_rate, &Frame::Data);
                 // like any other uplink: the level commanded by the network, never above the radio's limit
                 tx_config.adjust_power(
                     self.configuration
